@@ -206,6 +206,10 @@ def c01(acc):
     replay_reader(acc, p6, "slice", extra=["--stride", 2 if q else 1])
     trace_reader(acc, 400 if q else 3000, "doc,mut,rand,corpus", "plain", sources="slice", max_len=600 if q else 4000)
     trace_reader(acc, 200 if q else 2000, "doc,mut,corpus", "plain", sources="all", max_len=400 if q else 3000, seed_off=4)
+    # "the pull reader" over a source that reports ErrorKind::Interrupted / Pending now and then still returns the document's events
+    _, pflt = mc_reader(acc, 2, "default", ["Inv_RefMatch"], name="MC_Reader-c01faults")
+    replay_reader(acc, pflt, "faults")
+    trace_reader(acc, 150 if q else 1500, "doc,mut,small", "faults", sources="all", max_len=300 if q else 1500, seed_off=8)
     return acc.finish()
 
 
@@ -302,6 +306,9 @@ def c08(acc):
     _, ps = mc_ops(acc, 2 if q else 3, 0, 0, "four", [], ["Inv_StreamTiling"], "MC_Ops-c08stream", streams=2)
     replay_reader(acc, ps, "slice", extra=["--stride", 4 if q else 1])
     replay_reader(acc, ps, "chunks", extra=["--max-all-cuts", 0, "--stride", 16 if q else 2])
+    # the spans handed out by the skip calls (read_to_end* / read_text), issued after ANY event, tile the input together with the events' spans
+    _, pk = mc_ops(acc, 3, 0, 2, "default", [], ["Inv_SkipRef"], "MC_Ops-c08skipany", skipany=True)
+    replay_reader(acc, pk, "slice", extra=["--stride", 2 if q else 1])
     trace_reader(acc, 300 if q else 3000, "doc,corpus,mut", "plain", sources="all", max_len=800 if q else 6000)
     trace_reader(acc, 200 if q else 2000, "doc,corpus,mut,small", "raw", sources="all", max_len=300 if q else 2000, seed_off=2)
     return acc.finish()
@@ -427,7 +434,7 @@ CONSTANTS
   Mode = "{mode}"
   Emit = {"TRUE" if emit else "FALSE"}
   MaxAttrs = {maxattrs}
-INVARIANTS Inv_Ends Inv_Spans Inv_HtmlOnlyAdds Inv_Dups Inv_Lists Inv_Emit
+INVARIANTS Inv_Ends Inv_Spans Inv_HtmlOnlyAdds Inv_Dups Inv_Lists Inv_HasNil Inv_Emit
 CHECK_DEADLOCK FALSE
 """
     r = tlc("MC_Attrs", cfg, name=name, timeout=2500)
@@ -513,11 +520,11 @@ CONSTANTS
   KnownDevs = {devs_tla()}
 """
     tiny = base.replace(f"L = {L}", "L = 2").replace("Emit = TRUE", "Emit = FALSE") + "INVARIANTS Inv_Witness\nCHECK_DEADLOCK FALSE\n"
-    rc = tlc("MC_Ns", tiny, name=name + "-wit", timeout=600, tags=("WITNESS",))
+    rc = tlc("MC_Ns", tiny, name=name + "-wit", timeout=600, xss="512m", tags=("WITNESS",))
     seen = {json.loads(w)[0] for w in rc.tagged.get("WITNESS", [])}
     if {"read", "skip"} - seen:
         raise ToolError(f"vacuous model: operations never taken: {{'read','skip'}} - {seen}")
-    r = tlc("MC_Ns", base + "INVARIANTS Inv_Scope Inv_Prefixes Inv_Level" + (" Inv_Emit" if emit else "") + "\nCHECK_DEADLOCK FALSE\n", name=name, timeout=timeout)
+    r = tlc("MC_Ns", base + "INVARIANTS Inv_Scope Inv_Prefixes Inv_Level" + (" Inv_Emit" if emit else "") + "\nCHECK_DEADLOCK FALSE\n", name=name, timeout=timeout, xss="512m")
     acc.add_tlc(r, f"A:MC_Ns L={L} skips<={skips} expand_empty={expand}")
     path = None
     if emit:
@@ -529,7 +536,7 @@ CONSTANTS
 def c05(acc):
     """Namespace resolution follows the declarations in scope at each event."""
     q = acc.tier == QUICK
-    acc.rule = ("(A) MC_Ns: properly nested documents of <= L tag-level fragments (10 start-tag forms with default/prefixed declarations, re-declaration, un-declaration, "
+    acc.rule = ("(A) MC_Ns: properly nested documents of <= L tag-level fragments (12 start-tag forms with default/prefixed declarations, re-declaration, un-declaration, the reserved xml prefix re-declared legally and illegally next to other declarations, "
                 "shadowing on one tag, prefixed attributes; empty elements; text) x every history of read / skip calls; after every call the resolver state must agree "
                 "with the declarative nearest-declaration scope for 5 pool names x element/attribute, prefixes() and nesting level. (B) every (document, history) run "
                 "on the real NsReader: slice (read_event/read_resolved_event, read_to_end and read_text), buffered (two cuts), async; (C) random deeper documents and "
@@ -591,7 +598,7 @@ def writer_traces(acc, n):
 def c09(acc):
     """Events built through the API and written are read back identical."""
     q = acc.tier == QUICK
-    acc.rule = ("(A) MC_Writer build mode: every sequence of <= M construction descriptors out of 57 (BytesStart::new + push/extend/clear/set_name edits, BytesText::new, "
+    acc.rule = ("(A) MC_Writer build mode: every sequence of <= M construction descriptors out of 59 (BytesStart::new + push/extend/clear/set_name edits, BytesText::new, "
                 "BytesCData::escaped, comment, PI, BytesDecl::new, DOCTYPE, ElementWriter text/empty/cdata/pi) with payloads from a markup-heavy pool: reading the "
                 "written bytes back (reader+attribute+escape specs composed) gives the constructed logical events. (B) the same sequences built with the real "
                 "constructors, written sync and async, read back with the real reader and unescaped. (C) random longer construction sequences validated by TLC. "
@@ -828,7 +835,11 @@ def c07(acc):
     # target types: the hand-written family + std shapes + 40 [120] types given as data (spread over MC_Schema's type space)
     _, psch = mc_schema(acc, 2 if q else 3, "MC_Schema-c07")
     sch = ["--schemas", psch, "--max-schemas", 40 if q else 120]
-    de_replay(acc, p, "soup", "B:token soups x all target types x from_str/from_reader", extra=["--mutate", 0 if q else 1, "--stride", 1 if q else 12] + sch)
+    de_replay(acc, p, "soup", "B:token soups x all target types x from_str/from_reader", extra=["--mutate", 0, "--stride", 1 if q else 4] + sch)
+    if not q:
+        # every truncation of the shorter soups (the 5-token space with truncations does not finish in an hour)
+        _, p4 = mc_de(acc, "soup", 4, ["F02"], "MC_De-soup4")
+        de_replay(acc, p4, "soup", "B:every-byte truncations of token soups x all target types", extra=["--mutate", 1, "--stride", 8] + sch)
     # text runs inside an element: text / blanks / CDATA / comment / DOCTYPE / reference / end tag, up to 6 [7] pieces
     _, pt = mc_de(acc, "textrun", 5 if q else 6, ["F02"], "MC_De-textrun")
     de_replay(acc, pt, "soup", "B:text-run shapes inside an element x all target types", extra=sch + ["--stride", 1 if q else 8])
